@@ -80,7 +80,7 @@ def gen_ops(rng, timed, tier):
             op['wexpr'] = rng.choice(['neg', 'add', 'mul', 'rsub'])     # element-wise step on the Expanding object itself
         ops.append(op)
     for _ in range(3):
-        op = {'fam': 'ewm', 'agg': 'mean', 'par': rng.choice([{'com': 0.5}, {'com': 1}, {'com': 3}, {'span': 3}, {'span': 5},
+        op = {'fam': 'ewm', 'agg': 'mean', 'par': rng.choice([{'com': 0.5}, {'com': 1}, {'com': 3}, {'span': 3}, {'span': 5}, {'span': 2}, {'span': 4}, {'span': 2.5},
                                                              {'alpha': 0.5}, {'alpha': 0.25}, {'halflife': 2}])}
         op.update(_target(rng))
         ops.append(op)
